@@ -268,7 +268,7 @@ mutual
     declarations, return/break/continue, empty statements, assert/assume and other
     stand-alone expressions are no-ops.  `none`: outside the supported fragment. -/
 def desugar : Node → Option Cmd
-  | .ret _ => some .skip
+  | .ret e => if changesVariableO e then none else some .skip   -- `return x++;` changes x: not a skip
   | .brk => some .skip
   | .cont => some .skip
   | .empty => some .skip
